@@ -84,6 +84,12 @@ pub enum Step {
     DebugRoundTrip,
     /// from_pattern of a seeded pattern (rows of equal width)
     FromPattern { rows: Vec<String> },
+    /// the history continues on `MockDisplay::from_points(points, colour)`: a freshly constructed
+    /// display has both checks enabled
+    RestartFromPoints { pts: Vec<[i32; 2]>, c: u32 },
+    /// the history continues on `from_pattern` of the current content (same cells, both checks
+    /// enabled again); skipped when a cell holds a colour without a pattern character
+    RestartFromPattern,
 }
 
 #[derive(Clone, Debug, Hash)]
@@ -105,6 +111,7 @@ const PROBES: &[&str] = &[
     "pattern_ragged_height",
     "pattern_full_width",
     "pattern_with_spaces",
+    "continued_on_constructed_display",
     "diff_green",
     "diff_red",
     "diff_blue",
@@ -265,6 +272,10 @@ fn step_json(s: &Step) -> J {
             .set("colour", c.map(|c| J::Int(c as i64)).unwrap_or(J::Null)),
         Step::DebugRoundTrip => J::s("debug_round_trip"),
         Step::FromPattern { rows } => J::obj().set("from_pattern", J::Arr(rows.iter().map(|r| J::s(r.clone())).collect())),
+        Step::RestartFromPoints { pts, c } => J::obj()
+            .set("continue_on_from_points", J::Arr(pts.iter().map(|p| J::ints(&p[..])).collect()))
+            .set("colour", J::Int(*c as i64)),
+        Step::RestartFromPattern => J::s("continue_on_from_pattern_of_current_content"),
     }
 }
 
@@ -698,9 +709,49 @@ fn run_typed<C: SimColor + ColorMapping>(sc: &Scenario, opts: &Opts) -> RunOut {
                         }
                     }
                 }
+                Step::RestartFromPoints { pts, c } => {
+                    out.probes |= probe("continued_on_constructed_display");
+                    let col = C::from_u32(*c);
+                    match guarded(|| MockDisplay::<C>::from_points(pts.iter().map(|p| Point::new(p[0], p[1])), col)) {
+                        Ok(d) => {
+                            display = d;
+                            model = Model::new();
+                            for p in pts {
+                                model.cells[p[1] as usize * N + p[0] as usize] = Some(*c);
+                            }
+                        }
+                        Err(e) => viol = Some(mk(si, "unexpected_panic", format!("from_points with in-range points panicked: {}", e))),
+                    }
+                }
+                Step::RestartFromPattern => {
+                    let representable = model.cells.iter().all(|c| match c {
+                        None => true,
+                        Some(v) => alpha.iter().any(|(_, a)| a == v),
+                    });
+                    if representable {
+                        out.probes |= probe("continued_on_constructed_display");
+                        let rows: Vec<String> = (0..N)
+                            .map(|y| (0..N).map(|x| model.cells[y * N + x].map_or(' ', |v| char_of(v))).collect())
+                            .collect();
+                        let refs: Vec<&str> = rows.iter().map(|s| s.as_str()).collect();
+                        match guarded(|| MockDisplay::<C>::from_pattern(&refs)) {
+                            Ok(d) => {
+                                display = d;
+                                model.allow_overdraw = false;
+                                model.allow_oob = false;
+                            }
+                            Err(e) => viol = Some(mk(si, "unexpected_panic", format!("from_pattern of a valid 64x64 pattern panicked: {}", e))),
+                        }
+                    }
+                }
                 _ => {}
             }
-            if viol.is_none() && matches!(step, Step::SetPixel { .. } | Step::SetPixels { .. } | Step::ContinueOnClone) {
+            if viol.is_none()
+                && matches!(
+                    step,
+                    Step::SetPixel { .. } | Step::SetPixels { .. } | Step::ContinueOnClone | Step::RestartFromPoints { .. } | Step::RestartFromPattern
+                )
+            {
                 let cells = match guarded(|| read_cells(&display)) {
                     Ok(c) => c,
                     Err(e) => {
@@ -769,6 +820,8 @@ fn run_typed<C: SimColor + ColorMapping>(sc: &Scenario, opts: &Opts) -> RunOut {
             Step::SetPixels { .. } => 42,
             Step::DebugRoundTrip => 9,
             Step::FromPattern { .. } => 40,
+            Step::RestartFromPoints { .. } => 43,
+            Step::RestartFromPattern => 44,
         });
     }
     sh.u32(kind_idx);
@@ -863,7 +916,15 @@ impl Property for C20 {
         let n = 1 + src.draw(if crate::prop::deep() { 20 } else { 10 });
         let mut steps = Vec::new();
         for si in 0..n {
-            let s = match src.draw(18) {
+            let s = match src.draw(20) {
+                18 => {
+                    let k = src.draw(5);
+                    Step::RestartFromPoints {
+                        pts: (0..k).map(|_| gen_in_pt(src)).collect(),
+                        c: gen_col(src, kind),
+                    }
+                }
+                19 => Step::RestartFromPattern,
                 16 => Step::ContinueOnClone,
                 17 => {
                     let k = 1 + src.draw(4);
